@@ -369,6 +369,11 @@ S('st_recv_publish_v5_recv_max', {'C12': 'quick', 'C19': 'thorough'}, stubs=_st,
   bounds='v5.0 QoS1/2 PUBLISH received by a client that announced Receive Maximum 2 with 1 or 2 publishes outstanding', symbolic='a, b, r, QoS, full?',
   encodes=['process_recv_v5_0_publish', 'handle_v5_0_error'])
 
+for _v in ('v311', 'v5'):
+    S('st_recv_connack_while_connected_' + _v, {}, stubs=_st, est=600, mem='L',
+      bounds='CONNACK (accepted, session present symbolic) received by a *connected* persistent %s client with one stored QoS1 PUBLISH in flight' % _v, symbolic='i, session present, timer configuration',
+      encodes=['process_recv_%s_connack' % ('v3_1_1' if _v == 'v311' else 'v5_0')])
+
 # =============================================================================== final tier table
 # (overrides the per-harness `props` given above: one place to see what each property's check runs)
 QUICK = {
@@ -390,7 +395,7 @@ QUICK = {
     'C14': ['c14_total_size_kernel', 'c09_f1_header_value', 'st_send_puback_v5_limit', 'st_send_publish_v5_limit', 'st_send_publish_v5_automap_limit', 'st_send_stored_limit_v5', 'st_recv_packet_too_large'],
     'C15': ['st_send_pingreq_v5_client', 'st_send_disconnect_v311_client', 'st_timer_fired_server_pingreq_recv', 'st_notify_closed_any', 'st_recv_connect_v311_server', 'st_send_pubrel_states_v311'],
     'C16': ['st_restore_packets_v311', 'st_restore_packets_v5', 'st_restore_packets_duplicate_id', 'st_handled_export_restore', 'st_recv_connack_v311_resume'],
-    'C17': ['c17_can_receive_table', 'st_dispatch_client_v311', 'st_dispatch_server_v311', 'st_undetermined_first_packet'],
+    'C17': ['c17_can_receive_table', 'st_dispatch_client_v311', 'st_dispatch_server_v311', 'st_undetermined_first_packet', 'st_recv_connack_while_connected_v311'],
     'C18': [h['name'] for h in HARNESSES if h['name'].startswith('c18_')],
     'C19': ['st_send_disconnect_v311_client', 'st_timer_fired_v311_client', 'st_recv_puback_v5_flow', 'st_recv_framing_error_v5', 'st_recv_packet_too_large'],
     'C20': ['c20_step_u16_n3', 'c20_base_new_u16', 'c20_base_new_u32'],
@@ -414,7 +419,7 @@ THOROUGH_EXTRA = {
     'C14': [],
     'C15': ['st_send_pingreq_v311_client', 'st_send_disconnect_v5_server', 'st_timer_fired_v311_client', 'st_timer_fired_v5_client_pingresp', 'st_recv_pingresp_client', 'st_recv_connect_v5_server'],
     'C16': ['st_send_connack_v5_resume_count'],
-    'C17': ['st_dispatch_client_v5', 'st_dispatch_server_v5', 'st_recv_connect_v311_server', 'st_recv_connect_v5_server'],
+    'C17': ['st_dispatch_client_v5', 'st_dispatch_server_v5', 'st_recv_connect_v311_server', 'st_recv_connect_v5_server', 'st_recv_connack_while_connected_v5'],
     'C18': [],
     'C19': ['st_send_disconnect_v5_server', 'st_timer_fired_v5_client_pingresp', 'st_timer_fired_server_pingreq_recv', 'st_recv_framing_error_v311', 'st_recv_publish_v5_recv_max',
             'st_recv_publish_v5_alias', 'st_recv_puback_v311_persistent', 'st_send_pingreq_v311_client'],
